@@ -473,10 +473,32 @@ def fault_patches(w: World):
         s = (w.spec.get("pd", {}).get(k) or default_pd(k))["S"]
         return [poison()] if s[0] == "x" else [nodes.paragraph("", "STAN" + s[1:])]
 
+    from pydoctor.templatewriter import pages
+    real_e_inline, real_e_pyval = epydoc2stan.colorize_inline_pyval, epydoc2stan.colorize_pyval
+    real_p_inline, real_p_html2stan = pages.colorize_inline_pyval, pages.html2stan
+
+    def stub_or(real):
+        def f(pyval, *a, **kw):
+            k = w.node_stubs.get(id(pyval))
+            return real(pyval, *a, **kw) if k is None else make_stub(w, k)
+        return f
+
+    def html2stan(text):
+        if w.sig_now is None:
+            return real_p_html2stan(text)
+        if w.sig_now[0] == "x":
+            raise mkexc(w.sig_now[1:])
+        return tags_p("STAN" + w.sig_now[1:])
+    from twisted.web.template import tags as _tags
+    tags_p = _tags.p
     epydoc2stan.get_parser_by_name = get_parser
     markup.SummaryExtractor = summary_extractor
     markup.build_table_of_content = build_toc
     _types.ParsedTypeDocstring = st["StubTyped"]
+    epydoc2stan.colorize_inline_pyval = stub_or(real_e_inline)
+    epydoc2stan.colorize_pyval = stub_or(real_e_pyval)
+    pages.colorize_inline_pyval = stub_or(real_p_inline)
+    pages.html2stan = html2stan
     try:
         yield
     finally:
@@ -484,6 +506,8 @@ def fault_patches(w: World):
         markup.SummaryExtractor = real_se
         markup.build_table_of_content = real_toc
         _types.ParsedTypeDocstring = real_typed
+        epydoc2stan.colorize_inline_pyval, epydoc2stan.colorize_pyval = real_e_inline, real_e_pyval
+        pages.colorize_inline_pyval, pages.html2stan = real_p_inline, real_p_html2stan
 
 
 # ------------------------------------------------------------------ spec -> model request
@@ -493,7 +517,18 @@ def errs_tok(errs) -> str:
 
 
 def fields_tok(fs) -> str:
-    return ",".join("%d/%d/%d" % (int(t), k, ln) for (t, k, ln) in fs) or "-"
+    return ",".join("%d/%d/%d" % (int(f[0]), f[1], f[2]) + ("" if len(f) < 4 else "/%s" % ("-" if f[3] is None else f[3]))
+                    for f in fs) or "-"
+
+
+def xo_of(spec: Dict[str, Any], i: int) -> Dict[str, Any]:
+    """the colorizer / signature parameters of object i: what the spec says, else the defaults the stubs realise"""
+    d = {"ann": 800 + i if i in ATTRS else None, "const": 820 + i if i in ATTRS else None, "sig": None,
+         "bases": {7: [847], 10: [850, 851]}.get(i, []), "decs": [860, 861] if i == 11 else []}
+    if i in FUNCS:
+        d["sig"] = "r%d" % (840 + i)
+    d.update(spec.get("xo", {}).get(i, {}))
+    return d
 
 
 def request_of(spec: Dict[str, Any]) -> str:
@@ -520,6 +555,11 @@ def request_of(spec: Dict[str, Any]) -> str:
             t += ["par", f, str(i), "ret", "plain" if arg == "plain" else "user:%d" % arg, errs_tok(errs)]
         else:
             t += ["par", f, str(i), "raise", arg, errs_tok(errs)]
+    for i in range(len(NAMES)):
+        x = xo_of(spec, i)
+        t += ["xo", str(i), "1" if i in ATTRS else "0", "-" if x["ann"] is None else str(x["ann"]),
+              "-" if x["const"] is None else str(x["const"]), x["sig"] or "-",
+              ",".join(map(str, x["bases"])) or "-", ",".join(map(str, x["decs"])) or "-"]
     t.append("ops")
     t += ["%s:%d" % (op, i) for op, i in spec["ops"]]
     return " ".join(t)
@@ -559,9 +599,43 @@ def run_ops(w: World, ops, stan_role=None, limit: float = 20.0):
                     r = E.format_toc(o)
                     ent["stan"] = r
                     tok = "toc=" + canon_stan(r, role("toc"))
-                else:
+                elif op == "x":
                     E.extract_fields(o)
                     tok = "ext=ok"
+                elif op == "y":
+                    r = E.type2stan(o)
+                    ent["stan"] = r
+                    tok = "typ=" + canon_stan(r, role("type"))
+                elif op == "c":
+                    w.stan_log = []
+                    r = E.format_constant_value(o)
+                    ent["stan"] = r
+                    tok = "st=" + canon_stan(w.stan_log[-1] if w.stan_log else None, role("const"))
+                elif op == "g":
+                    from pydoctor.templatewriter import pages
+                    w.sig_now = xo_of(w.spec, i)["sig"] if w.spec.get("kind") == "fault" else None
+                    try:
+                        r = pages.format_signature(o)
+                    finally:
+                        w.sig_now = None
+                    ent["stan"] = r
+                    tok = "st=" + canon_stan(r, role("sig"))
+                elif op in "br":
+                    from pydoctor.templatewriter import pages
+                    w.stan_log = []
+                    r = pages.format_class_signature(o) if op == "b" else list(pages.format_decorators(o))
+                    ent["stan"] = r
+                    tok = "sts=[%s]" % ",".join(canon_stan(x, role("pyval%d" % j)) for j, x in enumerate(w.stan_log))
+                else:
+                    from pydoctor.templatewriter import search
+                    r = search.LunrIndexWriter.format_docstring(None, o)
+                    src = E.ensure_parsed_docstring(o)
+                    if r is None:
+                        tok = "srch=N"
+                    elif src is not None and r == src.docstring and r != "":
+                        tok = "srch=doc:" + enc(r)
+                    else:
+                        tok = "srch=node"
                 if ent["stan"] is not None:
                     _, ent["flat_err"] = flatten_safely(ent["stan"])
         except Hang:
@@ -597,29 +671,44 @@ def canon_pd(w: World, pd, pdname=None) -> str:
         for f in pd.fields:
             b = f.body()
             bt = "t%d" % b.k if isinstance(b, st["StubTyped"]) else "u%d" % b.k if isinstance(b, st["StubPD"]) else "?"
-            fs.append("%d/%s/%d" % (int(f.tag() in st["StubTyped"].FIELDS), bt, f.lineno))
+            fs.append("%d/%s/%d" % (TAG_CODE.get(f.tag(), 0), bt, f.lineno))
         return "user%d[%s]" % (pd.k, ";".join(fs) or "-")
     if pdname is not None:
         return pdname(pd)
     return "real:" + type(pd).__name__
 
 
-def canon_state(w: World, descr_token, pdname=None, only_report_errors: bool = False) -> str:
+def canon_ptype(w: World, b, pdname=None) -> str:
+    st = stub_classes()
+    if b is None:
+        return "N"
+    if isinstance(b, st["StubTyped"]):
+        return "t%d" % b.k
+    if isinstance(b, st["StubPD"]):
+        return "u%d" % b.k
+    return pdname(b) if pdname is not None else "real:" + type(b).__name__
+
+
+def canon_state(w: World, descr_token, pdname=None, only_report_errors: bool = True) -> str:
+    """parse_errors, the reports filed through reportErrors ('bad <section>: …'), the import message, every object's
+    cached forms.  Other warnings (Field.report, linker, 'Missing field name') belong to C09/C16 and are left out."""
     s = w.system
     errs = []
     for sec, names in s.parse_errors.items():
         for n in names:
-            errs.append(((0 if sec == "docstring" else 1), sec, w.ids.get(n, 99)))
-    errs.sort(key=lambda x: (x[0], x[2]))
-    etok = ",".join(("0" if sec == "docstring" else sec) + "." + str(i) for _, sec, i in errs) or "-"
+            errs.append((SEC_NAMES.get(sec, 99), w.ids.get(n, 99)))
+    errs.sort()
+    etok = ",".join("%d.%d" % e for e in errs) or "-"
     rt = []
     for (i, descr, section, off) in w.reports:
-        if section == "docstring" and descr.startswith("bad docstring: "):
-            rt.append("%d.0.%s.%d" % (i, descr_token(descr[len("bad docstring: "):]), off))
+        pre = "bad %s: " % section
+        if section in SEC_NAMES and descr.startswith(pre):
+            rt.append("%d.%d.%s.%d" % (i, SEC_NAMES[section], descr_token(descr[len(pre):]), off))
         elif not only_report_errors:
             rt.append("%d.%s.other" % (i, section))
     m = "1" if any(sec == "epydoc2stan" for sec, _ in s.once_msgs) else "0"
-    ot = " ".join("%d=%s/%s" % (i, canon_pd(w, o.parsed_docstring, pdname), canon_pd(w, o.parsed_summary, pdname))
+    ot = " ".join("%d=%s/%s/%s" % (i, canon_pd(w, o.parsed_docstring, pdname), canon_pd(w, o.parsed_summary, pdname),
+                                   canon_ptype(w, o.parsed_type, pdname))
                   for i, o in enumerate(w.objs))
     return " | E " + etok + " | R " + (",".join(rt) or "-") + " | M " + m + " | O " + ot
 
@@ -631,6 +720,18 @@ def apply_spec(w: World, spec: Dict[str, Any]) -> None:
         w.objs[i].docstring = o.get("doc")
         if o.get("parsed") is not None:
             w.objs[i].parsed_docstring = make_stub(w, o["parsed"])
+    for i, o in enumerate(w.objs):
+        x = xo_of(spec, i)
+        if x["ann"] is not None:
+            w.node_stubs[id(o.annotation)] = x["ann"]
+        if x["const"] is not None:
+            w.node_stubs[id(o.value)] = x["const"]
+        for (sb, node), k in zip(getattr(o, "rawbases", []) or [], x["bases"]):
+            w.node_stubs[id(node)] = k
+        for node, k in zip(getattr(o, "decorators", None) or [], x["decs"]):
+            w.node_stubs[id(node)] = k
+        if i in FUNCS and x["sig"] is None:
+            o.signature = None
 
 
 def run_fault_case(w: World, spec: Dict[str, Any]):
@@ -748,6 +849,86 @@ def exhaustive_fault_cases(quick: bool):
             yield sp
 
 
+def wrapper_fault_cases():
+    """exhaustive sets for the further wrappers: type2stan / get_parsed_type, format_constant_value, format_signature,
+    format_class_signature, format_decorators, search.format_docstring, and the field splitting of extract_fields"""
+    n = 0
+    d = default_pd
+    SN = [("r", "r"), ("x", "r"), ("x", "xni"), ("x", "xo4")]        # (to_stan, to_node) of a colorized value / field body
+    # C: the type shown for an Attribute: from a `type` field of its own docstring (typed under --process-types), or from the annotation
+    for x in ATTRS:
+        src = holder_of(x)
+        for fmt in "eg":
+            for pt in (0, 1):
+                for source in ("field", "two-fields", "annotation", "preset-doc-none"):
+                    for (sk, nk) in SN:
+                        for tys in ("r", "x"):
+                            if tys == "x" and not (pt and fmt == "e" and source in ("field", "two-fields")):
+                                continue
+                            n += 1
+                            sp = base_spec(fmt, pt, 1, x, TEXTS[n % len(TEXTS)])
+                            body = dict(d(10), S=("r10" if sk == "r" else "xo7"), N=("r" if nk == "r" else nk))
+                            sp["pd"] = {10: body, 11: dict(d(11))}
+                            sp["ty"] = {10: {"M": "r-", "S": "r1010" if tys == "r" else "xo6"}}
+                            if source in ("field", "two-fields"):
+                                fs = [(2, 11, 0, None), (0, 12, 1), (2, 10, 2, None)] if source == "two-fields" else [(2, 10, 0, None)]
+                                sp["pd"][1] = dict(d(1), F=fs)
+                                sp["par"][(fmt, x)] = ("ret", 1, [])
+                            elif source == "annotation":
+                                sp["par"][(fmt, x)] = ("ret", 1, [])
+                                sp["pd"][1] = d(1)
+                                sp["xo"] = {x: {"ann": 10}}
+                            else:
+                                sp["objs"][src] = {"doc": None}
+                                sp["xo"] = {x: {"ann": 10}}
+                            sp["xo"] = dict(sp.get("xo", {}))
+                            sp["xo"].setdefault(x, {})["const"] = 13
+                            sp["pd"][13] = dict(d(13), S=("r13" if sk == "r" else "xo8"), N=nk if nk != "r" else "r")
+                            order = [["y", "y", "d", "y", "c", "q"], ["d", "y", "c", "q", "y"], ["q", "c", "y", "d"]][n % 3]
+                            sp["ops"] = [("d", BYSTANDER)] + [(c, x) for c in order] + [("d", BYSTANDER), ("y", BYSTANDER)]
+                            yield sp
+    # D: signatures, class signatures, decorators
+    for x in FUNCS:
+        for sig in ("r5", "xo3", None):
+            n += 1
+            sp = base_spec("e", 0, 1, x, "doc")
+            sp["xo"] = {x: {"sig": sig}}
+            sp["ops"] = [("g", x), ("g", x), ("d", x), ("g", x)]
+            yield sp
+    for x, nb in ((7, 1), (10, 2), (11, 2)):
+        for combo in itertools.product(SN, repeat=nb):
+            n += 1
+            sp = base_spec("e", 0, 1, x, "doc")
+            ks = [870 + j for j in range(nb)]
+            sp["pd"] = {k: dict(d(k), S=("r%d" % k if sk == "r" else "xo%d" % (j + 1)), N=nk) for j, (k, (sk, nk)) in enumerate(zip(ks, combo))}
+            sp["xo"] = {x: ({"decs": ks} if x == 11 else {"bases": ks})}
+            op = "r" if x == 11 else "b"
+            sp["ops"] = [(op, x), (op, x), ("d", x)]
+            yield sp
+    # search text: to_node outcomes x parser outcomes x kinds
+    for x in XS:
+        for nk in ("r", "xni", "xo3", "xas"):
+            for po in (0, 4, 6):
+                n += 1
+                sp = base_spec("er"[n % 2], n % 2, 1, x, TEXTS[n % len(TEXTS)])
+                sp["par"][(sp["sys"], x)] = PARSER_OUTCOMES[po]
+                sp["pd"] = {1: dict(d(1), N=nk)}
+                sp["ops"] = [("q", x), ("d", x), ("q", x), ("s", x), ("t", x)] if n % 2 else [("s", x), ("q", x), ("d", x)]
+                yield sp
+    # E: extract_fields splits ivar/type fields onto the attributes; rendering those attributes afterwards
+    for x, child in ((0, 5), (1, 3)):
+        for pt in (0, 1):
+            for fs in ([(3, 10, 1, child)], [(2, 10, 1, child)], [(3, 10, 1, None)], [(2, 10, 3, None), (0, 12, 4)],
+                       [(3, 10, 1, child), (2, 11, 2, child)], [(3, 10, 1, child), (3, 11, 5, child)]):
+                for (sk, nk) in SN[:3]:
+                    n += 1
+                    sp = base_spec("e", pt, 1, x, TEXTS[n % len(TEXTS)])
+                    sp["par"][("e", x)] = PARSER_OUTCOMES[n % 2]
+                    sp["pd"] = {1: dict(d(1), F=list(fs)), 10: dict(d(10), S=("r10" if sk == "r" else "xo7"), N=nk), 11: dict(d(11))}
+                    sp["ops"] = [("x", x), ("d", child), ("s", child), ("y", child), ("t", child), ("q", child), ("d", x), ("d", child)]
+                    yield sp
+
+
 def rand_text(rng) -> str:
     alphabet = "ab c\n\n  .<&>`{}@:*"
     return "".join(rng.choice(alphabet) for _ in range(rng.randint(1, 14)))
@@ -790,6 +971,7 @@ def random_fault_case(rng) -> Dict[str, Any]:
                 if isty and rng.random() < 0.6:
                     sp["ty"][b] = {"M": rng.choice(["r-", "r%d" % rng.randint(500, 520), "r501,502", "xo%d" % rng.randint(1, 9), "xni"]),
                                    "S": rng.choice(["r%d" % (1000 + b), "xo%d" % rng.randint(1, 9)])}
+            p["_split"] = rng.random() < 0.3    # may get type/ivar fields once it is known which object it documents
         sp["pd"][k] = p
         return k
     for i in range(len(NAMES)):
@@ -813,9 +995,41 @@ def random_fault_case(rng) -> Dict[str, Any]:
                     sp["par"][(f, i)] = ("ret", "plain", errs)
                 else:
                     sp["par"][(f, i)] = ("raise", rng.choice(["p1", "p2", "o%d" % rng.randint(1, 9), "ni"]), errs)
-    focus = rng.sample(range(len(NAMES)), 3) + [2, 8, 3, 9]
-    sp["ops"] = [(rng.choice("eddsstx") if True else "d", rng.choice(focus)) for _ in range(rng.randint(4, 14))]
+    # `type` / `ivar` fields only where the handlers file no warning of their own: `type` without argument in an
+    # Attribute's docstring; `type`/`ivar` naming a child attribute (or nothing) in a class / module docstring
+    children = {0: [5], 1: [3], 7: [9]}
+    for (f, i), (kind, arg, errs) in list(sp["par"].items()):
+        if kind == "ret" and arg != "plain" and sp["pd"][arg].pop("_split", False):
+            if i in ATTRS:
+                sp["pd"][arg]["F"].append((2, new_pd(1), rng.randint(0, 5), None))
+            elif i in children:
+                for _ in range(rng.randint(1, 2)):
+                    sp["pd"][arg]["F"].append((rng.choice([2, 3]), new_pd(1), rng.randint(0, 5), rng.choice(children[i] + [None])))
+    for p in sp["pd"].values():
+        p.pop("_split", None)
+    sp["xo"] = {}
+    for i in range(len(NAMES)):
+        x: Dict[str, Any] = {}
+        if i in ATTRS and rng.random() < 0.5:
+            x["ann"] = new_pd(1)
+            x["const"] = new_pd(1)
+        if i in FUNCS:
+            x["sig"] = rng.choice(["r%d" % (840 + i), "xo2", None])
+        if i in (7, 10) and rng.random() < 0.6:
+            x["bases"] = [new_pd(1) for _ in xo_of({}, i)["bases"]]
+        if i == 11 and rng.random() < 0.6:
+            x["decs"] = [new_pd(1), new_pd(1)]
+        if x:
+            sp["xo"][i] = x
+    focus = rng.sample(range(len(NAMES)), 3) + [2, 8, 3, 9, 5]
+    sp["ops"] = []
+    for _ in range(rng.randint(4, 14)):
+        i = rng.choice(focus)
+        ops = "eddsstxq" + ("yyc" if i in ATTRS else "") + ("g" if i in FUNCS else "") + ("b" if i in (7, 10) else "") + ("r" if i == 11 else "")
+        sp["ops"].append((rng.choice(ops), i))
     sp["ops"] = [(op, i) for op, i in sp["ops"] if not (op == "x" and sp["objs"].get(i, {}).get("doc") is None and rng.random() < 0.8)]
+    # the search text of an object with an EMPTY docstring cannot be told from "to_node gave no text": not asked for
+    sp["ops"] = [(op, i) for op, i in sp["ops"] if not (op == "q" and any(sp["objs"].get(j, {}).get("doc") == "" for j in [i] + INHERITED.get(i, [])))]
     return sp
 
 
